@@ -59,6 +59,11 @@ def vet(ctx, inputs, invariants, name):
         shutil.rmtree(wdir, ignore_errors=True)
 
 
+WINDOW_COSTS = [c for c in (gen.cost(0, 1, 3, 1, 1), gen.cost(0, 1, 2, 1, 1), gen.cost(0, 2, 3, 1, 1), gen.cost(1, 2, 3, 1, 1),
+                            gen.cost(0, 1, 3, 1, 0), gen.cost(0, 2, 3, 2, 1), gen.cost(0, 1, 2, 1, 0), gen.cost(1, 1, 3, 2, 1))
+                if proj.coherent(c)]
+
+
 def _agree(job):
     A = proj.api()
     inp, with_ord, with_exh = job
@@ -114,6 +119,17 @@ def run(ctx):
         c = gen.random_cost(rng, proj.coherent) if rng.random() < 0.6 else rng.choice(META_COSTS)
         inp = sc.sinput(ot, st, gen.random_leaf_map(rng, ot, st), c, syn)
         jobs.append((inp, not big, nobj <= 5 and len(st) <= 7))
+    # directed family (added after seeded change C10c): small multi-family ordered inputs on two
+    # or three species with a dear transfer (hgt above the loss costs), where a transfer
+    # with one child kept in the host lineage competes with duplication + loss - the
+    # region in which the extended ordered solver and its base variant can part
+    for i in range(2400 if thorough else 600):
+        ot = gen.random_bin_shape(rng, rng.randint(3, 5))
+        st = gen.random_bin_shape(rng, rng.randint(2, 3))
+        syn, _ = sc.random_syn(rng, "ord", ot, rng.randint(2, 3), p_inconsistent=0.0)
+        c = rng.choice(WINDOW_COSTS)
+        inp = sc.sinput(ot, st, gen.random_leaf_map(rng, ot, st), c, syn)
+        jobs.append((inp, True, len(ot) <= 7))
     with multiprocessing.get_context("fork").Pool(16) as pool:
         results = pool.map(_agree, jobs, chunksize=2)
     ctx.stage("runs")
